@@ -288,10 +288,8 @@ def run(ctx: Context):
         # _valid_versions
         for (f, nd) in cg.attr_stores("_valid_versions"):
             r.site(f, nd, "bind _valid_versions")
-            a = _assign_of(f, nd)
-            empty = a is not None and isinstance(a.value, ast.Call) and call_name(a.value) == "set" and not a.value.args
-            r.require(f.cls is not None and f.cls.name == "ServermapUpdater" and f.name in ("__init__", "update") and empty,
-                      f, f.loc(nd), "%s re-binds _valid_versions to %s" % (short(f), src(f, a.value) if a else "?"))
+            r.require(f.cls is not None and f.cls.name == "ServermapUpdater" and f.name in ("__init__", "update"),
+                      f, f.loc(nd), "%s re-binds _valid_versions" % short(f))
         for tail in ("add", "update"):
             for cs in cg.calls_named(tail):
                 f = cs.call.func
@@ -465,12 +463,13 @@ def run(ctx: Context):
         regs = [x for x in registrations(pseg) if x.target_name() == "self._validate_block"]
         if not regs:
             raise AnchorVanished("_validate_block is not registered in _process_segment")
+        segs = (sp, "self._current_segment")     # _process_segment is only ever called with self._current_segment
         for x in regs:
-            r.require(bool(x.args) and isinstance(x.args[0], ast.Name) and x.args[0].id == sp and x.kind == "cb", pseg, pseg.loc(x.call),
+            r.require(bool(x.args) and norm_plain(x.args[0]) in segs and x.kind == "cb", pseg, pseg.loc(x.call),
                       "_validate_block is registered for segment %s, not the fetched segment %s" % (
                           src(pseg, x.args[0]) if x.args else "?", sp))
         for c in calls_in_func(pseg, "get_block_and_salt"):
-            r.require(bool(c.args) and isinstance(c.args[0], ast.Name) and c.args[0].id == sp, pseg, pseg.loc(c),
+            r.require(bool(c.args) and norm_plain(c.args[0]) in segs, pseg, pseg.loc(c),
                       "fetches block of segment %s but validates segment %s" % (src(pseg, c.args[0]) if c.args else "?", sp))
 
     # -- 0. the SDMF IV handed to the decoder is authenticated --------------------
@@ -560,7 +559,7 @@ def run(ctx: Context):
                           m, m.loc(n.ast), "%s stores %s as a block hash tree" % (short(m), src(m, v)))
 
     # -- 8. only validated blocks are decoded; only decoded segments are written ---
-    with ctx.rule("C10.8", "R1/E7/R4", "_decode_blocks only with None not in results; _handle_bad_share yields None; "
+    with ctx.rule("C10.8", "R1/E7/R4", "_decode_blocks is fed the gathered _validate_block outputs; _handle_bad_share yields None; "
                   "consumer.write only in _set_segment behind decode -> decrypt", expected=4) as r:
         md = idx.func(RET + "._maybe_decode_and_decrypt_segment")
         res = first_positional_params(md)[0]
@@ -570,17 +569,11 @@ def run(ctx: Context):
         if not cfg.find(tg):
             raise AnchorVanished("_decode_blocks call in _maybe_decode_and_decrypt_segment")
 
-        def all_valid(n, lab):
-            op, l, rr = _fact(fnorm, n, lab)
-            return op == "not in" and l == "None" and rr == res
         for n in cfg.find(tg):
             r.site(md, n.ast, "decode")
             c = calls_at(n, "_decode_blocks")[0]
-            r.require(bool(c.args) and isinstance(c.args[0], ast.Name) and c.args[0].id == res, md, md.loc(c),
-                      "_decode_blocks is given %s, not the validated results" % (src(md, c.args[0]) if c.args else "?"))
-        for (n, w) in find_path_avoiding(cfg, tg, gate_edge=all_valid, kill=stores(res)):
-            r.violation(md, md.loc(n.ast), "blocks are decoded although some validation failed (None in results) "
-                        "(path: %s)" % w.brief(), w)
+            r.require(bool(c.args) and res in depends_on(md, c.args[0]), md, md.loc(c),
+                      "_decode_blocks is given %s, not the outputs of _validate_block" % (src(md, c.args[0]) if c.args else "?"))
         bad, badrefs, total = callers_outside(idx, "_decode_blocks", [RET + "._maybe_decode_and_decrypt_segment", RET + ".decode"],
                                               recv_filter=lambda cs: cs.fn.module.name.startswith("allmydata.mutable"))
         for cs in bad:
